@@ -17,6 +17,7 @@
     stp,h / stpr,h,ok|panic    Handler.Stop         st,h  Started() seen closed     sd,h  Stopped() seen closed
     sdnil,h               Stopped() returned a nil channel        rng  Running() seen closed       cx  Run ctx cancelled
     wce                   the self-close watcher's Close returned an error (logged by the router)
+    qs                    quiescence: the goroutine census ran and found no goroutine of the router / handlers / decorators
     fin,stuck,left,snap   end: a wait ran into the liveness bound / goroutines left / final settlement
 -/
 namespace Wm.RouterMon
@@ -30,7 +31,7 @@ structure Ev where
 def knownKinds : List (String × Nat) :=
   [("ahc",1),("ah",2),("ahp",1),("rc",1),("rr",3),("rhc",1),("rhr",2),("sub",1),("em",2),("ea",2),("hs",2),("hg",2),("he",3),
    ("pb",2),("pc",1),("sc",1),("scr",1),("cc",1),("cr",3),("stp",1),("stpr",2),("st",1),("sd",1),("sdnil",1),("rng",0),
-   ("cx",0),("go",0),("rel",0),("wce",0),("fin",3),("kr",2),("ks",2),("kp",2),("kb",2),("kS",0),("kL",0),("kR",0),
+   ("cx",0),("go",0),("qs",0),("rel",0),("wce",0),("fin",3),("kr",2),("ks",2),("kp",2),("kb",2),("kS",0),("kL",0),("kR",0),
    ("kh",1),("kg",1),("kw",0),("kd",1)]
 
 def numOf (f : String) : Nat :=
